@@ -107,3 +107,19 @@ C("c09-noreclip", "C09", UH, "        if subcls.default_rounds is not None:\n   
 C("c09-typo-attr", "C09", "passlib/handlers/fshp.py", "            subcls.default_variant = cls._norm_variant(variant)", "            subcls.default_variants = cls._norm_variant(variant)", "C09.h")
 C("c09-kwds-dropped", "C09", SCR, "    def using(cls, block_size=None, **kwds):\n        subcls = super().using(**kwds)", "    def using(cls, block_size=None, **kwds):\n        subcls = super().using()", "C09.a")
 C("c09-norm-rounds-swap", "C09", UH, "cls, rounds, cls.min_rounds, cls.max_rounds, param=param, relaxed=relaxed", "cls, rounds, cls.max_rounds, cls.min_rounds, param=param, relaxed=relaxed", "C09.e")
+
+# ---- C19
+CTX = "passlib/context.py"
+BIN = "passlib/utils/binary.py"
+C("c19-revert-F16-des", "C19", "passlib/crypto/des.py", "    if CF6464 is None:", "    if PCXROT is None:", "C19.b", "revert of fix f9aa42f")
+C("c19-revert-F16-bf", "C19", "passlib/crypto/_blowfish/base.py", "        if BLOWFISH_S is None:", "        if BLOWFISH_P is None:", "C19.b", "revert of fix f9aa42f")
+C("c19-nolock-b64", "C19", BIN, "        with _lazy_init_lock:\n            opts = self._lazy_opts", "        if True:\n            opts = self._lazy_opts", "C19.a")
+C("c19-early-clear-b64", "C19", BIN, "            args, kwds = opts\n            super().__init__(*args, **kwds)\n            # NOTE: only flag the engine as ready once it's fully initialized\n            self._lazy_opts = None\n", "            args, kwds = opts\n            self._lazy_opts = None\n            super().__init__(*args, **kwds)\n", "C19.a")
+C("c19-self-call-b64", "C19", BIN, "            LazyBase64Engine._lazy_init(self)", "            self._lazy_init()", "C19.a")
+C("c19-norecheck-ctx", "C19", CTX, "            kwds = self._lazy_kwds\n            if kwds is None:\n                # another thread finished the job while we waited for the lock,\n                # or we were re-entered from CryptContext.__init__() below.\n                return\n", "            kwds = self._lazy_kwds\n", "C19.a")
+C("c19-busy-early", "C19", CTX, "            self._lazy_busy = True\n            self._lazy_kwds = None\n", "            self._lazy_kwds = None\n", "C19.a")
+C("c19-cls-write", "C19", "passlib/handlers/sha2_crypt.py", "        return _raw_sha2_crypt(secret, self.salt, self.rounds, self._cdb_use_512)", "        type(self)._last_rounds = self.rounds\n        return _raw_sha2_crypt(secret, self.salt, self.rounds, self._cdb_use_512)", "C19.d")
+C("c19-publish-early", "C19", UH, "            if not dryrun:\n                cls.__backend = name\n            return name", "            return name", "C19.c", "placeholder")
+CONTROLS.pop()
+C("c19-publish-order", "C19", UH, "            try:\n                cls._pending_backend = name\n                cls._pending_dry_run = dryrun\n                cls._set_backend(name, dryrun)\n", "            try:\n                cls._pending_backend = name\n                cls._pending_dry_run = dryrun\n                if not dryrun:\n                    cls.__backend = name\n                cls._set_backend(name, dryrun)\n", "C19.c")
+C("c19-registry-idem", "C19", "passlib/registry.py", "        if other is handler:\n            logging.debug(\"same %r handler already registered: %r\", name, handler)\n            return\n", "", "C19.e")
